@@ -197,6 +197,7 @@ where
             let this = TemporaryNonBlockingGuard::new(&this, fd);
             let waker = LazyCell::default();
             loop {
+                this.ensure_nonblocking();
                 match this.inner.read(fd, buffer).await {
                     #[allow(
                         unreachable_patterns,
@@ -238,6 +239,7 @@ where
             let this = TemporaryNonBlockingGuard::new(&this, fd);
             let waker = LazyCell::default();
             loop {
+                this.ensure_nonblocking();
                 match this.inner.write(fd, buffer).await {
                     #[allow(
                         unreachable_patterns,
@@ -573,7 +575,7 @@ fn wake_tasks_for_ready_fds<S: FdSet>(task_map: &mut HashMap<Fd, WakerSet>, read
 struct TemporaryNonBlockingGuard<'a, S: Fcntl + Sigmask> {
     system: &'a Concurrent<S>,
     fd: Fd,
-    original_nonblocking: bool,
+    original_nonblocking: Cell<bool>,
 }
 
 impl<'a, S: Fcntl + Sigmask> TemporaryNonBlockingGuard<'a, S> {
@@ -581,14 +583,30 @@ impl<'a, S: Fcntl + Sigmask> TemporaryNonBlockingGuard<'a, S> {
         Self {
             system,
             fd,
-            original_nonblocking: system.inner.get_and_set_nonblocking(fd, true) == Ok(true),
+            original_nonblocking: Cell::new(
+                system.inner.get_and_set_nonblocking(fd, true) == Ok(true),
+            ),
+        }
+    }
+
+    /// Makes sure the file descriptor is still in non-blocking mode.
+    ///
+    /// The non-blocking flag belongs to the open file description, which may be
+    /// shared with another task or process. If another user of the file
+    /// description that set the flag before this guard was created has finished
+    /// and cleared the flag in the meantime, this function sets the flag again
+    /// and takes over the responsibility for clearing it, so that the next
+    /// operation on the file descriptor never blocks the whole process.
+    fn ensure_nonblocking(&self) {
+        if self.system.inner.get_and_set_nonblocking(self.fd, true) == Ok(false) {
+            self.original_nonblocking.set(false);
         }
     }
 }
 
 impl<'a, S: Fcntl + Sigmask> Drop for TemporaryNonBlockingGuard<'a, S> {
     fn drop(&mut self) {
-        if !self.original_nonblocking {
+        if !self.original_nonblocking.get() {
             self.system
                 .inner
                 .get_and_set_nonblocking(self.fd, false)
@@ -720,7 +738,7 @@ mod tests {
         Close as _, Disposition, Mode, OfdAccess, Open as _, OpenFlag, Pipe as _, SendSignal as _,
     };
     use super::*;
-    use crate::system::r#virtual::{PIPE_SIZE, SIGCHLD, SIGINT, SIGUSR2, VirtualSystem};
+    use crate::system::r#virtual::{PIPE_BUF, PIPE_SIZE, SIGCHLD, SIGINT, SIGUSR2, VirtualSystem};
     use crate::test_helper::WakeFlag;
     use crate::trap::SignalSystem as _;
     use assert_matches::assert_matches;
@@ -1022,6 +1040,43 @@ mod tests {
         // The file descriptor should have the same blocking mode as before
         // (which was set to non-blocking before the write)
         assert_eq!(system.inner.get_and_set_nonblocking(fd, true), Ok(true));
+    }
+
+    #[test]
+    fn write_stays_nonblocking_after_another_user_of_the_file_restored_blocking_mode() {
+        let system = Rc::new(Concurrent::new(VirtualSystem::new()));
+        let (reader, writer) = system.pipe().unwrap();
+        system
+            .write(writer, &[0; PIPE_SIZE])
+            .now_or_never()
+            .unwrap()
+            .unwrap();
+
+        // Another user of the open file description is in the middle of an
+        // operation and has set the non-blocking flag.
+        system.inner.get_and_set_nonblocking(writer, true).ok();
+
+        let buffer = [1; PIPE_SIZE];
+        let mut write = pin!(system.write(writer, &buffer));
+        let mut context = Context::from_waker(Waker::noop());
+        assert_eq!(write.as_mut().poll(&mut context), Pending);
+
+        // The other user finishes and restores the blocking mode, and then
+        // some room is made in the pipe.
+        system.inner.get_and_set_nonblocking(writer, false).ok();
+        let mut read_buffer = [0; PIPE_BUF];
+        system
+            .read(reader, &mut read_buffer)
+            .now_or_never()
+            .unwrap()
+            .unwrap();
+        system.peek();
+
+        // The resumed write must not be a blocking one, which would not return
+        // until the whole buffer has been written.
+        assert_eq!(write.as_mut().poll(&mut context), Ready(Ok(PIPE_BUF)));
+        // The last user restores the blocking mode.
+        assert_eq!(system.inner.get_and_set_nonblocking(writer, false), Ok(false));
     }
 
     #[test]
